@@ -196,10 +196,10 @@ def run(tier, seed):
             raise vlib.Infra("design-spec control failed: variant %s should violate %s: %s" % (var, inv, r.summary()))
         o.selftests.append({"control": "spec variant %s violates %s" % (var, inv), "rejected_as_required": True})
     # stage 1: schedules
-    hists, g = vlib.gen_schedules("C15", FAMILY, "SchedulerGen", "SchedulerGen.cfg", num=600 if thorough else 90,
+    hists, g = vlib.gen_schedules("C15", FAMILY, "SchedulerGen", "SchedulerGen.cfg", num=600 if thorough else 80,
                                   depth=500, seed=seed, limit=3000 if thorough else 300)
     scheds = [from_tlc(h, k) for k, h in enumerate(hists)]
-    rnd = random_schedules(seed, 2400 if thorough else 330, thorough)
+    rnd = random_schedules(seed, 2400 if thorough else 260, thorough)
     # stage 2+3
     vlib.conformance(o, FAMILY, "SchedulerTrace", "SchedulerTrace.cfg", "c15", scheds, tag="tlcgen", chunk=40)
     vlib.conformance(o, FAMILY, "SchedulerTrace", "SchedulerTrace.cfg", "c15", rnd, tag="random", chunk=40)
